@@ -6,4 +6,4 @@ Extraction Language OCaml.
 Extraction "c16_model.ml"
   Z.add Z.mul Z.opp Z.abs Z.div_eucl Z.sub Z.eqb Z.leb Z.ltb Z.of_nat Z.to_nat
   Base.FILL
-  C16.c16_plans C16.c16_data_run.
+  C16.c16_plans C16.c16_data_run C16.c16_history_presence.
